@@ -11,7 +11,8 @@ Bad(r) ==
      ELSE Clause("Shape", r.obs.cshape = res.val.shape)
           \cup Clause("Content", r.obs.cells = res.val.cells)
           \cup Clause("Meta", MetaOK(r.obs))
-          \cup (IF last.op = "rechunk"
+          \* (dask deliberately does not rechunk an array all of whose extents are zero)
+          \cup (IF last.op = "rechunk" /\ ~(res.val.shape # <<>> /\ \A a \in DOMAIN res.val.shape : res.val.shape[a] = 0)
                 THEN Clause("RechunkTarget", r.obs.chunks = RechunkTarget(res.val.shape, last.how)) ELSE {})
 
 Init == TInit
